@@ -66,6 +66,13 @@ ALPHABET = [
     'create scalar type default::S extending str',
     'drop scalar type default::S',
     'alter type default::A create property s: default::S',
+    # link properties referring to user scalars / functions (a link property
+    # is a referrer like any other)
+    'create type default::L1 { create link a: default::A { create property lp: default::S } }',
+    'create type default::L2 { create link a: default::A { create property ld: str { set default := default::f() } } }',
+    'create abstract link default::al { create property q: default::S }',
+    'drop type default::L1',
+    'drop abstract link default::al',
     'create alias default::AL := default::A { u := 1 }',
     'drop alias default::AL',
     'create function default::f() -> str using ("q")',
